@@ -10,27 +10,32 @@ CONFIG = {
                  "and a HAND MODEL of the third-party formatter (rio_xml 0.8.6 RdfXmlFormatter/split_iri, quick-xml 0.36 "
                  "escape + Writer indentation) with a reference reader; byte-exact and parsed-graph differential against "
                  "the real serializer and sophia_xml::parser; round-trip / well-formedness / indentation oracle on the Rust side",
-    "level_text": "Proof covers Sophia's glue plus a formatter MODEL, not the third-party core: for the Lean transcription of "
-                  "convert_triple / rio_format_triples / RdfXmlSerializer (indentation switch, finish) and a hand model of "
+    "level_text": "Proof covers Sophia's glue plus a formatter MODEL, not the third-party core. For the Lean transcription "
+                  "of convert_triple / rio_format_triples / RdfXmlSerializer (indentation switch, finish) and a hand model of "
                   "rio_xml's RdfXmlFormatter + split_iri and quick-xml's escape and indenting Writer it is proved, for all "
-                  "inputs, that exactly the strict RDF triples are written (others skipped, quoted triples = error), that "
-                  "unescape . escape = id on every string, what a conforming XML 1.0 reader delivers for escaped text and "
-                  "attributes (CR is the only XML-legal character lost), that split_iri yields an NCName local part with "
-                  "ns++local = IRI or else the pseudo name 'prop:' exactly when no suffix is an NCName, that the indentation "
-                  "rule never puts inserted whitespace next to a Text event (any event stream, any size), and that the "
-                  "model reader returns the graph (restricted to strict triples, language tags lower-cased) from the model "
-                  "writer's output for every indentation under explicit hypotheses (roundtrip_partial). The third-party "
+                  "inputs: exactly the strict RDF triples are written (others skipped, quoted triples = error); "
+                  "unescape . escape = id on every string; what a conforming XML 1.0 reader delivers for escaped text and "
+                  "attribute values (CR in text, TAB/LF/CR in attributes are the only characters lost); split_iri yields an "
+                  "NCName local part with ns++local = IRI, or the pseudo name 'prop:' exactly when no suffix is an NCName; the "
+                  "indentation rule never puts inserted whitespace next to a Text event (any event stream, any size); the "
+                  "model reader (tokeniser + rio_xml state machine for the writer's vocabulary) applied to the model "
+                  "writer's TEXT output returns, for every indentation, the graph restricted to strict triples (language tags "
+                  "lower-cased) under explicit hypotheses (roundtrip_partial: NCName blank labels, predicate not an RDF/XML "
+                  "syntax name, literal text not whitespace-only), each hypothesis shown necessary by a kernel-checked "
+                  "counterexample; and the reader's result is independent of the indentation for ALL graphs. The third-party "
                   "core (rio_xml formatter and parser, quick-xml writer and reader) is tied to these models ONLY by the "
-                  "differential: byte-exact output and identical parsed graph on generated graphs; the property itself "
-                  "(error, or well-formed and isomorphic; same parse for indentation 0..8) is judged on the real code by an "
-                  "independent oracle in the harness.",
+                  "differential: byte-exact output and identical parsed graph on generated graphs. The property itself "
+                  "(error, or namespace-well-formed and isomorphic; same parse for indentation 0..8) is judged on the real "
+                  "code by an independent oracle in the harness.",
     "level_note": "Trusted: the hand models of rio_xml 0.8.6 / quick-xml 0.36.2 (only as good as the differential), own XML "
                   "well-formedness checker and isomorphism test in harness/props/c18, XML 1.0 Char/Name classes and "
                   "normalisation rules transcribed from memory. IRIs and language tags in generated graphs are valid "
                   "(absolute RFC 3987 IRIs, BCP47 tags); characters outside XML Char are out of scope (outcome recorded, "
                   "not flagged). No native_decide. Known findings: whitespace-only literals come back empty; blank node "
                   "labels starting with a digit give an unparsable rdf:nodeID; predicates rdf:li / reserved rdf: names are "
-                  "renumbered or unparsable; predicates without NCName suffix are written as the ill-formed QName 'prop:'.",
+                  "renumbered or unparsable; predicates without NCName suffix are written as the ill-formed QName 'prop:'. "
+                  "Documented limit (not flagged): a lone CR in a literal is written raw, sophia's own reader keeps it, a "
+                  "conforming XML processor would read LF (theorem xml_text_cr_lost).",
     "tables": [],
     "lean_targets": ["SophiaProofs.Props.C18", "SophiaProofs.Audit.C18"],
     "theorems": [],   # filled below
@@ -159,7 +164,7 @@ def _causes(request):
 def _model_predicts(failure):
     """the Lean model of the rio_xml reader predicts exactly the observed parse outcome"""
     I, M = kv(failure["impl"]), kv(failure["model"])
-    return "g" in I and I.get("g") == M.get("g") and I.get("parse") == M.get("parse") and I.get("out") == M.get("out")
+    return "g" in I and I.get("g") == M.get("g") and I.get("parse") == M.get("parse")
 
 
 def _roundtrip_failure(failure, cause):
